@@ -471,6 +471,8 @@ type Op struct {
 	Addr   int    `json:"addr,omitempty"`
 	Sub    []Op   `json:"sub,omitempty"`
 	Note   string `json:"note,omitempty"`
+	// Counter: the transaction of a propose/craft also carries the receiver's signature (a confirmed contract)
+	Counter bool `json:"counter,omitempty"`
 }
 
 type Result struct {
@@ -529,6 +531,41 @@ func (w *World) DeliverVertex(n int, v *accountant.Vertex) Result {
 	delete(w.Pool[n], v.Hash)
 	w.mu.Unlock()
 	return Result{Err: err, Vertex: v}
+}
+
+// TamperKinds names the mutations of TamperVertex.
+var TamperKinds = []string{"weight+1", "weight+128", "created+1ns", "hash-bit", "signature-bit", "signer-swapped", "left-parent-bit", "parents-swapped-or-right-bit"}
+
+// TamperVertex changes one field covered by the sealing digest (or the digest / signature itself) without re-sealing.
+func TamperVertex(c *accountant.Vertex, kind int, otherAddr string) {
+	switch kind % len(TamperKinds) {
+	case 0:
+		c.Weight++
+	case 1:
+		c.Weight += 128
+	case 2:
+		c.CreatedAt = c.CreatedAt.Add(time.Nanosecond)
+	case 3:
+		c.Hash[5] ^= 0x10
+	case 4:
+		if len(c.Signature) > 9 {
+			c.Signature[9] ^= 0x04
+		}
+	case 5:
+		if c.SignerPublicAddress == otherAddr {
+			c.SignerPublicAddress = otherAddr[:len(otherAddr)-1]
+		} else {
+			c.SignerPublicAddress = otherAddr
+		}
+	case 6:
+		c.LeftParentHash[0] ^= 0x01
+	case 7:
+		if c.LeftParentHash != c.RightParentHash {
+			c.LeftParentHash, c.RightParentHash = c.RightParentHash, c.LeftParentHash
+		} else {
+			c.RightParentHash[31] ^= 0x80
+		}
+	}
 }
 
 func CloneVertex(v *accountant.Vertex) accountant.Vertex {
@@ -625,9 +662,24 @@ func (w *World) apply(op Op) Result {
 	switch op.K {
 	case "propose":
 		tx := w.MakeTx(op.From, op.To, spice.Melange{Currency: op.C, SupplementaryCurrency: op.S}, op.Data)
+		if op.Counter {
+			ref.CounterSign(&tx, w.Wallets[op.To])
+		}
 		return w.ProposeTx(op.N, tx)
+	case "tamper": // a copy of archived vertex V with one sealed field changed (kind Cnt) and NOT re-sealed, offered to node N
+		src := w.Arch.V[w.orderHash(op.V)]
+		if src == nil {
+			return Result{Err: errors.New("sim: no such vertex")}
+		}
+		c := CloneVertex(src)
+		TamperVertex(&c, op.Cnt, w.Wallets[w.RogueWallet(0)].Addr)
+		err := guard(func() error { return w.Nodes[op.N].Book.AddLeaf(context.Background(), &c) })
+		return Result{Err: err}
 	case "craft":
 		tx := w.MakeTx(op.From, op.To, spice.Melange{Currency: op.C, SupplementaryCurrency: op.S}, op.Data)
+		if op.Counter {
+			ref.CounterSign(&tx, w.Wallets[op.To])
+		}
 		l, r := w.orderHash(op.L), w.orderHash(op.R)
 		v := w.Craft(op.Sealer, tx, l, r, op.W)
 		return Result{Vertex: v, Tx: &tx}
